@@ -126,4 +126,27 @@ def laneRun : Prog → List Bool → Option (List Bool)
       | some b => laneRun rest (env.set d b)
       | none => none
 
+/-! ### lane-wise programs over `w` lanes packed into one `Nat` per register (truth-table evaluation) -/
+def Ex.nat (w : Nat) (env : List Nat) : Ex → Option Nat
+  | .reg i => some (env.getD i 0)
+  | .xor a b => match a.nat w env, b.nat w env with
+      | some x, some y => some (x ^^^ y)
+      | _, _ => none
+  | .and a b => match a.nat w env, b.nat w env with
+      | some x, some y => some (x &&& y)
+      | _, _ => none
+  | .or a b => match a.nat w env, b.nat w env with
+      | some x, some y => some (x ||| y)
+      | _, _ => none
+  | .not a => match a.nat w env with
+      | some x => some ((2 ^ w - 1) ^^^ x)
+      | none => none
+  | _ => none
+
+def natRun (w : Nat) : Prog → List Nat → Option (List Nat)
+  | [], env => some env
+  | (d, e) :: rest, env => match e.nat w env with
+      | some x => natRun w rest (env.set d x)
+      | none => none
+
 end SqiModel.Bitslice
